@@ -35,7 +35,7 @@ let reject_name = function
   | RMultiple -> "multiple_occurrences" | RSyntax -> "syntax" | RBadCast -> "bad_cast" | RInvalid -> "invalid"
   | RIniUnknown -> "ini_unknown" | RBadMask -> "bad_mask" | RResources -> "resources"
   | RLateUnknown -> "late_unknown" | RLateSplit -> "late_split"
-  | RExpandLoop -> "expand_loop" | RExpandCrash -> "expand_crash"
+  | RExpandLoop -> "expand_loop"
 let () =
   try
     while true do
@@ -75,8 +75,7 @@ let () =
         (* what get_entry returns for an entry [key] after [s] was stored in it (no other entries) *)
         (match read_x env no_entries (cs_of_string (field rest "key")) (cs_of_string (unhex (field rest "s"))) with
          | XOk v -> Printf.printf "OUT EXPAND %s ok %s\n" id (hex (string_of_cs v))
-         | XFuel -> Printf.printf "OUT EXPAND %s loop\n" id
-         | XThrow -> Printf.printf "OUT EXPAND %s crash\n" id);
+         | XFuel -> Printf.printf "OUT EXPAND %s loop\n" id);
         flush stdout
       | "IN" :: "TABLE" :: id :: _ ->
         Printf.printf "OUT TABLE %s optkey=%s builtin=%s\n" id
